@@ -195,4 +195,11 @@ def cases_modules(rng, sizes, Js=(1, 2, 3), NC=(1, 2), masks='all', absent=True)
                             for p, h in zip(pres, YH):
                                 if p: ins += planes(T(h))
                             out.append(Case(40, [MODE_SYM] + list(pres), gb, ins, y, dict(fn='DTCWTInverse', H=H, W=W, J=J, present=pres, low=has_low, Lq=Lq)))
+                    # a level given as a full-shape tensor that happens to be exactly zero is still a present level
+                    for jz in range(J):
+                        YZ = [h * (0 if j == jz else 1) for j, h in enumerate(YH)]
+                        y = call(lambda: (A4(inv((T(YL), [T(h * S2) for h in YZ]))),))
+                        ins = [YL]
+                        for h in YZ: ins += planes(T(h))
+                        out.append(Case(40, [MODE_SYM] + [1] * J, gb, ins, y, dict(fn='DTCWTInverse', H=H, W=W, J=J, present=tuple([1] * J), low=1, Lq=Lq, zero_level=jz)))
     return out
